@@ -379,6 +379,9 @@ pub fn check(case: &Case) -> Verdict {
                 true
             };
             must_not_panic!("Rate::new / reciprocal", ((r.new_roundtrip)(r4), (r.reciprocal_twice)(r4)));
+            // the second constructor only stores its operands: any amounts
+            must_not_panic!("Rate::from_qty_vals", (r.from_qty_vals)((ta, *tu), (pm, *pu)));
+            must_not_panic!("Rate clone / reciprocal", ((r.clone_roundtrip)(r4), (r.reciprocal)(r4)));
             must_not_panic!("rate Display", (r.to_string)(r4));
             if mul_ok {
                 must_not_panic!("rate * value", (r.rate_mul_qty)(r4, (v, *vu_p)));
